@@ -288,10 +288,52 @@ def _callbacks(P):
                 continue
             for p, a in zip(G.params, nd["a"]):
                 if p["n"] == "f_cb":
-                    an = F.nodes[F.strip(a)]
-                    if an.get("k") == "ref" and an.get("dk") == "func":
-                        cbs.setdefault(an["n"], set()).add(F.key)
+                    # a function designator, or a local that only ever holds designators
+                    for name in F.func_values(a) or ():
+                        cbs.setdefault(name, set()).add(F.key)
     return cbs
+
+
+def _flows_only_to_f_cb(P, F, i):
+    """Reference i (a function designator) initialises / is assigned to a local whose every
+    read is an argument bound to a parameter named f_cb."""
+    pm = F.parent_map()
+    p = pm.get(i)
+    while p is not None and F.nodes[p].get("k") in ("cast", "load", "cond"):
+        p = pm.get(p)
+    if p is None:
+        return False
+    pn = F.nodes[p]
+    var = None
+    if pn.get("k") == "decl":
+        for v in pn["vars"]:
+            if "init" in v and i in F.descendants(v["init"]):
+                var = v["n"]
+    elif pn.get("k") == "bin" and pn.get("asg") and pn["op"] == "=":
+        ln = F.nodes[F.strip(pn["lh"])]
+        if ln.get("k") == "ref" and ln.get("dk") == "var":
+            var = ln["n"]
+    if var is None:
+        return False
+    uses = [j for j, nd in enumerate(F.nodes) if nd and nd.get("k") == "load" and F.nodes[nd["e"]].get("k") == "ref" and
+            F.nodes[nd["e"]]["n"] == var]
+    if not uses:
+        return False
+    for j in uses:
+        q = pm.get(j)
+        while q is not None and F.nodes[q].get("k") in ("cast", "load"):
+            q = pm.get(q)
+        qn = F.nodes[q] if q is not None else None
+        ok = False
+        if qn and qn.get("k") == "call" and qn.get("fn"):
+            G = P.resolve_call(F, qn)
+            if G is not None:
+                for prm, a in zip(G.params, qn["a"]):
+                    if F.strip(a) == F.strip(j):
+                        ok = prm["n"] == "f_cb"
+        if not ok:
+            return False
+    return True
 
 
 def rule_R2(P, rep):
@@ -315,6 +357,8 @@ def rule_R2(P, rep):
                             for prm, a in zip(G.params, pn["a"]):
                                 if F.strip(a) == i or i in F.descendants(a):
                                     ok = prm["n"] == "f_cb"
+                    if not ok:
+                        ok = _flows_only_to_f_cb(P, F, i)
                     if not ok:
                         bad.append(F.loc(i))
         rep.ob("R2", "%s is only ever passed as a post-switch callback (never called before the switch)" % cb, not bad,
